@@ -264,7 +264,9 @@ def run_pair(x, y, xops, yops, ignore, acc, audit=False):
         shutil.rmtree(r, ignore_errors=True)
     os.mkdir(remote)
     detail = {"uploaded_tree_ops_from_base": list(xops), "then_commits": list(yops), "changes": M.n_changes(x, y),
-              "ignore_file": ignore, "uploaded_tree": sorted(x), "new_tree": sorted(y)}
+              "ignore_file": ignore, "uploaded_tree": sorted(x), "new_tree": sorted(y),
+              "profile": "ignore" if ignore else ("deep" if "d/s/y" in M.profile("deep").base and b"id-ds" in
+                                                  {e.fid for t in (x, y) for e in t.values()} else "plain")}
     links = {p for t in (x, y) for p, e in t.items() if e.kind == "symlink"}
 
     def report(phase, what, path=None, error=None, all_=None):
@@ -412,3 +414,24 @@ def run(ctx):
         "samples": acc.samples[:3],
         "exhaustive": True,
     }
+
+
+def replay(ctx, data):
+    """Rebuild the pair from the recorded edit descriptions and run it again."""
+    d = data["first"]
+    prof = M.profile(d.get("profile", "ignore" if d["ignore_file"] else "plain"))
+    t = prof.base
+    trees = []
+    step = 0
+    for ops in (d["uploaded_tree_ops_from_base"], d["then_commits"]):
+        for desc in ops:
+            step += 1
+            nxt = dict(M.successors(t, "s%d" % step, prof, True)).get(desc)
+            if nxt is None:
+                raise HarnessError("cannot replay edit %r" % desc)
+            t = nxt
+        trees.append(t)
+    acc = Acc()
+    run_pair(trees[0], trees[1], d["uploaded_tree_ops_from_base"], d["then_commits"], prof.ignore, acc)
+    sigs = set(acc.best) | {v[1]["base_signature"] for v in acc.best.values()}
+    return data["signature"] not in sigs
